@@ -1123,7 +1123,22 @@ class ReplacingNodeVisitor(BaseNodeVisitor):
             return None
         lines = self._lines()
         lines_to_remove = analysis_lib.get_line_range_for_node(current_statement, lines)
+        if self._is_only_statement_in_block(current_statement):
+            # Removing the only statement of a block would leave invalid code.
+            first_line = lines[current_statement.lineno - 1]
+            indent = first_line[: len(first_line) - len(first_line.lstrip())]
+            return Replacement(lines_to_remove, [f"{indent}pass\n"])
         return Replacement(lines_to_remove, [])
+
+    def _is_only_statement_in_block(self, statement: ast.stmt) -> bool:
+        if self.tree is None:
+            return False
+        for parent in ast.walk(self.tree):
+            for field in ("body", "orelse", "finalbody"):
+                block = getattr(parent, field, None)
+                if isinstance(block, list) and block == [statement]:
+                    return not isinstance(parent, ast.Module)
+        return False
 
     def visit(self, node: ast.AST) -> Any:
         """Save the node if it is a statement."""
